@@ -49,10 +49,10 @@ def h_categorical(ctx, k, N, n_nan, pipeline, props):
     elif pipeline == "qualitative":
         d = QualitativeDiscretizer(["f"], min_freq=mf, copy=True, verbose=False)
     elif pipeline in ("qualitative_ordinal", "qualitative_ordinal_numeric", "qualitative_ordinal_bigfloat"):
-        d = QualitativeDiscretizer([], min_freq=mf, ordinal_features=["f"], values_orders={"f": ranking_container(ctx, cats)}, copy=True, verbose=False)
+        d = QualitativeDiscretizer([], min_freq=mf, ordinal_features=["f"], values_orders={"f": ranking_container(ctx, cats, which=("list", "array", "grouped", "dict")[(len(col) + len(cats)) % 4])}, copy=True, verbose=False)
     elif pipeline == "discretizer_ordinal":
         from AutoCarver.discretizers import Discretizer
-        d = Discretizer([], [], min_freq=mf, ordinal_features=["f"], values_orders={"f": ranking_container(ctx, cats)}, copy=True, verbose=False)
+        d = Discretizer([], [], min_freq=mf, ordinal_features=["f"], values_orders={"f": ranking_container(ctx, cats, which=("list", "array", "grouped", "dict")[(len(col) + len(cats)) % 4])}, copy=True, verbose=False)
     elif pipeline == "discretizer":
         from AutoCarver.discretizers import Discretizer
         d = Discretizer([], ["f"], min_freq=mf, copy=True, verbose=False)
